@@ -433,15 +433,33 @@ def _substitute_reference(repo, f, entry):
                 g = repo.resolve_call(call, f)
             except Exception:
                 return None
-            if g is None or g.cls is not None:
+            if g is None:
                 return None
             g.node._key = '%s:%s' % (g.rel, g.qualname)
+            g.node._bound_self = None
+            if g.cls is not None:
+                deco = {getattr(d, 'id', getattr(d, 'attr', None)) for d in g.node.decorator_list}
+                if deco:
+                    return None
+                if isinstance(call.func, ast.Attribute) and isinstance(call.func.value, ast.Name) and call.func.value.id == 'self':
+                    g.node._bound_self = ast.Name(id='self', ctx=ast.Load())
+                else:
+                    return None
             return g.node
 
         def is_new(gnode):
             return getattr(gnode, '_key', None) is not None and (gnode._key + '#src') not in ref_all
         cur = normal.inline_new_helpers(f.node, resolve_node, is_new)
         if normal.nf_key(cur, info, consts) != normal.nf_key(rnode, info, consts):
+            if cur is not f.node:
+                # not a pure respelling, but a block of it now lives in a helper the reference does not have: the rules look at the
+                # function with that helper inlined (same behaviour), not at a call they cannot see through
+                link_parents(cur)
+                cur._parent = getattr(f.node, '_parent', None)
+                f.node = cur
+                for x in ast.walk(cur):
+                    x._func = f
+                f.roles = dict(getattr(f, 'roles', {}) or {}, new_helpers_inlined=True)
             return False
     except (SyntaxError, RecursionError):
         return False
